@@ -5238,6 +5238,22 @@ func (a *Agent) TaskDispatch(RequestID uint32, CommandID uint32, Parser *parser.
 									if teamserver.AgentExist(AgentHdr.AgentID) {
 
 										DemonInfo = teamserver.AgentInstance(AgentHdr.AgentID)
+
+										// the named agent must not be the sender or one of its parents:
+										// that link would make an agent its own ancestor
+										var Cyclic = false
+										for p := a; p != nil; p = p.Pivots.Parent {
+											if p == DemonInfo {
+												Cyclic = true
+												break
+											}
+										}
+										if Cyclic {
+											Message["Type"] = "Error"
+											Message["Message"] = fmt.Sprintf("[SMB] Failed to connect: %x is this agent or one of its parents", AgentHdr.AgentID)
+											break
+										}
+
 										Message["MiscType"] = "reconnect"
 										Message["MiscData"] = fmt.Sprintf("%v;%x", a.NameID, AgentHdr.AgentID)
 
